@@ -19,9 +19,9 @@ def model_line(d):
         out += [KINDS[v["Kind"]], max(v.get("X", -1), 0), int(bool(v.get("LenPos"))), len(e)] + e
     out.append(len(d["Blocks"]))
     for b in d["Blocks"]:
-        preds, succs, phis = b.get("Preds") or [], b.get("Succs") or [], b.get("Phis") or []
+        preds, succs, phis, defs = b.get("Preds") or [], b.get("Succs") or [], b.get("Phis") or [], b.get("Defs") or []
         hasif = b.get("HasIf") and b.get("Op") in ("==", "!=") and not b.get("BarsNil")
-        out += [len(preds)] + preds + [len(succs)] + succs + [len(phis)] + phis
+        out += [len(preds)] + preds + [len(succs)] + succs + [len(phis)] + phis + [len(defs)] + defs
         out += [int(bool(hasif)), int(b.get("Op") == "=="), max(b.get("X", -1), 0), max(b.get("Y", -1), 0)]
         out += [int(bool(b.get("EndsReturn"))), max(b.get("Ret", -1), 0)]
     return " ".join(map(str, out))
@@ -78,7 +78,7 @@ def describe(f):
     for i, v in enumerate(f["Values"]):
         ls.append("  v%d: %s%s%s" % (i, v["Kind"], " v%d" % v["X"] if v.get("X", -1) >= 0 else "", " edges %s" % v["Edges"] if v.get("Edges") else ""))
     for i, b in enumerate(f["Blocks"]):
-        ls.append("  block %d: preds %s succs %s phis %s%s%s" % (i, b.get("Preds") or [], b.get("Succs") or [], b.get("Phis") or [],
+        ls.append("  block %d: preds %s succs %s phis %s defs %s%s%s" % (i, b.get("Preds") or [], b.get("Succs") or [], b.get("Phis") or [], b.get("Defs") or [],
                   " if v%d %s v%d%s" % (b["X"], b["Op"], b["Y"], " (cannot be nil)" if b.get("BarsNil") else "") if b.get("HasIf") else "",
                   " return v%d" % b["Ret"] if b.get("EndsReturn") else ""))
     ls.append("model-line: " + model_line(f))
